@@ -136,7 +136,7 @@ def destroyLoop (l : LList) : Nat → Option Nat → Except Err LList
         | .ok l1 => destroyLoop l1 f c.next
 
 /-- `wbxml_list_destroy(list, NULL)`: every cell of the chain is freed exactly once. -/
-def destroy (l : LList) : Except Err LList := l.destroyLoop (l.heap.length + 1) l.head
+def destroy (l : LList) : Except Err LList := l.destroyLoop (l.len + 1) l.head
 
 /-- Items met when following `next` from `p` (observation used by the driver). -/
 def walkFrom (l : LList) : Nat → Option Nat → Except Err (List Nat)
